@@ -197,6 +197,7 @@ inductive Act
   | installAfter (tid d : Nat)   -- tasks[tid].install_task(delta=d)
   | suspend (tid : Nat)          -- tasks[tid].suspend_task()
   | stop                         -- core.stop()
+  | pump (fuel : Nat)            -- core.run_once(): the callback pumps the loop itself
 deriving DecidableEq, Repr, Inhabited
 
 /-- a function handed to `core.deferred`: when called it records `id`, performs
@@ -262,6 +263,17 @@ structure World where
 
 def World.emit (w : World) (e : Ev) : World := { w with out := w.out ++ [e] }
 
+/-- What a nested `core.run_once()` — called from inside a task body or a
+    deferred function — does to the world (`fuel` bounds its `while` loop).
+    Everything from `World.act` to `World.run` below is parametric in it (an
+    instance argument, so that the definitions read as before); the instance
+    used by the driver and by the kernel-evaluated examples is `pumpAt depth`
+    at the end of this file: the nested pass IS `runOnceLoop`, one level down. -/
+class Pump where
+  pump : Nat → World → World
+
+variable [Pump]
+
 /-- `core.deferred(fn)` -/
 def World.defer (w : World) (f : Fn) : World :=
   { w with queue := w.queue ++ [f], subs := w.subs ++ [f.id], tm := { w.tm with trig := true } }
@@ -272,11 +284,17 @@ def World.deferAll (w : World) (fs : List Fn) : World := fs.foldl World.defer w
     `install_task(when=…)` / `(delta=…)` cannot raise; `stop()` clears
     `core.running` and sets the trigger. -/
 def World.act (w : World) (a : Act) : World :=
+  match a with
+  | .pump fuel =>
+    -- the marker first, then whatever the nested pass emits
+    Pump.pump fuel { w with out := w.out ++ [Ev.act a w.now none] }
+  | _ =>
   let w := match a with
     | .installAt tid t => { w with tm := (w.tm.installTask w.now tid (some t) none).1 }
     | .installAfter tid d => { w with tm := (w.tm.installTask w.now tid none (some d)).1 }
     | .suspend tid => { w with tm := w.tm.suspend tid }
     | .stop => { w with running := false, tm := { w.tm with trig := true } }
+    | .pump _ => w
   let due := match a with
     | .installAt tid _ => w.tm.ttime tid
     | .installAfter tid _ => w.tm.ttime tid
@@ -449,5 +467,17 @@ def World.step (w : World) : Op → World × Option Nat
 def World.run (w : World) : List Op → World
   | [] => w
   | op :: ops => World.run (w.step op).1 ops
+
+omit [Pump] in
+/-- the nested pass, `depth` levels of nesting deep: `core.run_once()` called
+    from a callback is `runOnceLoop` again, in which callbacks may pump
+    `depth - 1` levels further.  (Depth 0: a callback that would pump deeper than
+    the model goes does nothing — the harness never nests deeper than 2, the
+    driver uses depth 4.)  Unchanged code: the running batch was detached from
+    `deferredFns` before it was called, so the nested pass sees only what has
+    been deferred since. -/
+def pumpAt : Nat → Nat → World → World
+  | 0, _, w => w
+  | depth + 1, fuel, w => (@World.runOnceLoop ⟨pumpAt depth⟩ fuel w).1
 
 end BacVerif.Task
